@@ -341,23 +341,29 @@ impl Sched {
 
     /// Runs the given task bodies to completion under the scheduler. Each body gets its task id.
     /// Returns per-task panic information (None = finished normally) and the report.
-    pub fn run<'s>(&self, bodies: Vec<Box<dyn FnOnce(usize) + Send + 's>>) -> (Vec<Option<PanicInfo>>, SchedReport) {
+    pub fn run(&self, bodies: Vec<Box<dyn FnOnce(usize) + Send + 'static>>) -> (Vec<Option<PanicInfo>>, SchedReport) {
         let n = bodies.len();
-        let panics: Mutex<Vec<Option<PanicInfo>>> = Mutex::new(vec![None; n]);
-        std::thread::scope(|s| {
-            for (i, body) in bodies.into_iter().enumerate() {
-                let sched = self.clone();
-                let panics = &panics;
-                let _ = std::thread::Builder::new().stack_size(512 * 1024).spawn_scoped(s, move || {
-                    crate::core::install_panic_hook();
-                    sched.start_task(i);
-                    let r = catch(|| body(i));
-                    if let Err(p) = r {
-                        panics.lock().unwrap()[i] = Some(p);
-                    }
-                    sched.finish_task(i);
-                });
-            }
+        let panics: Arc<Mutex<Vec<Option<PanicInfo>>>> = Arc::new(Mutex::new(vec![None; n]));
+        let finished: Arc<(Mutex<usize>, Condvar)> = Arc::new((Mutex::new(0), Condvar::new()));
+        for (i, body) in bodies.into_iter().enumerate() {
+            let sched = self.clone();
+            let panics = panics.clone();
+            let finished = finished.clone();
+            // Node threads come from a process-wide pool: spawning ~5 OS threads per run from 16
+            // workers serialises on the kernel's address-space lock and scales negatively.
+            pool_submit(Box::new(move || {
+                sched.start_task(i);
+                let r = catch(|| body(i));
+                if let Err(p) = r {
+                    panics.lock().unwrap_or_else(|e| e.into_inner())[i] = Some(p);
+                }
+                sched.finish_task(i);
+                let (m, cv) = &*finished;
+                *m.lock().unwrap_or_else(|e| e.into_inner()) += 1;
+                cv.notify_all();
+            }));
+        }
+        {
             // wait until every task has registered, then hand the baton to the first one
             let mut g = self.lock();
             while g.tasks.iter().any(|t| *t == TaskSt::NotStarted) {
@@ -390,7 +396,17 @@ impl Sched {
                     break;
                 }
             }
-        });
+        }
+        {
+            // every body has returned (and released everything it captured) before we report
+            let (m, cv) = &*finished;
+            let mut done = m.lock().unwrap_or_else(|e| e.into_inner());
+            let start = std::time::Instant::now();
+            while *done < n && start.elapsed() < Duration::from_secs(180) {
+                let (d, _) = cv.wait_timeout(done, Duration::from_secs(1)).unwrap_or_else(|e| e.into_inner());
+                done = d;
+            }
+        }
         let g = self.lock();
         let report = SchedReport {
             clock_ns: g.clock_ns,
@@ -401,7 +417,38 @@ impl Sched {
             timeouts: g.timeouts,
             max_backlog: g.pipes.iter().map(|p| p.max_backlog).collect(),
         };
-        let p = panics.lock().unwrap().clone();
+        let p = panics.lock().unwrap_or_else(|e| e.into_inner()).clone();
         (p, report)
     }
+}
+
+// ---------------------------------------------------------------------------------------------
+// Thread pool for node threads
+// ---------------------------------------------------------------------------------------------
+
+type Job = Box<dyn FnOnce() + Send + 'static>;
+
+static POOL_IDLE: Mutex<Vec<std::sync::mpsc::Sender<Job>>> = Mutex::new(Vec::new());
+
+fn pool_submit(job: Job) {
+    let mut job = Some(job);
+    loop {
+        let tx = POOL_IDLE.lock().unwrap_or_else(|e| e.into_inner()).pop();
+        match tx {
+            Some(tx) => match tx.send(job.take().unwrap()) {
+                Ok(()) => return,
+                Err(e) => job = Some(e.0),
+            },
+            None => break,
+        }
+    }
+    let (tx, rx) = std::sync::mpsc::channel::<Job>();
+    let _ = tx.send(job.take().unwrap());
+    let _ = std::thread::Builder::new().stack_size(512 * 1024).name("sim-node".into()).spawn(move || {
+        crate::core::install_panic_hook();
+        while let Ok(job) = rx.recv() {
+            job();
+            POOL_IDLE.lock().unwrap_or_else(|e| e.into_inner()).push(tx.clone());
+        }
+    });
 }
